@@ -214,6 +214,39 @@ def elementwise(I, op, a, b, node):
         val = va if isinstance(va, Unknown) else vb
     elif isinstance(va, Expr) and isinstance(vb, Expr):
         val = I.scalar_binop(op, va, vb, node)
+    elif isinstance(op, ast.Mult) and ((isinstance(va, Expr) and isinstance(vb, (Pred, BoolCombo))) or (isinstance(vb, Expr) and isinstance(va, (Pred, BoolCombo)))):
+        # masking by multiplication with a boolean array: the entry itself where the mask holds, entry * 0 elsewhere - which is
+        # zero only for a finite entry (inf * 0 and nan * 0 are nan)
+        ev, mv = (va, vb) if isinstance(va, Expr) else (vb, va)
+        if I.decide_pred(mv):
+            val = ev
+            sub = {}
+            for at in ev.atoms():
+                if at.kind == "fn" and at.name == "abs" and at.args and isinstance(at.args[0], Expr):
+                    p = I.facts.possible(at.args[0])
+                    if p <= {"+", "0"}:
+                        sub[at] = at.args[0]
+                    elif p <= {"-", "0"}:
+                        sub[at] = -at.args[0]
+            if sub:
+                val = ev.subs(sub)
+        else:
+            val = ZERO
+            risky = []
+            for mono, cf in ev.expand().n.items():
+                for at, pw in mono:
+                    inner = at.args[0] if at.kind == "base" else alg.atom_expr(at)
+                    if not isinstance(inner, Expr):
+                        continue
+                    neg = (isinstance(pw, int) and pw < 0) or (hasattr(pw, "denominator") and not isinstance(pw, Expr) and pw < 0) or (isinstance(pw, Expr) and alg.manifest_sign(pw) <= {"-"})
+                    unknown_sign = isinstance(pw, Expr) and not neg and not (alg.manifest_sign(pw) <= {"+", "0"})
+                    if (neg or unknown_sign) and "0" in I.facts.possible(inner):
+                        risky.append((repr(inner)[:60], "negative" if neg else "of unknown sign"))
+            definite = [x for x in risky if x[1] == "negative"]
+            if definite:
+                I.event("masked-nonfinite", node, "an entry that the mask excludes is multiplied by 0, not replaced: %s can be zero there and occurs with a negative power, so the entry is inf and inf * 0 stays nan" % definite[0][0])
+            elif risky:
+                I.event("masked-unknown", node, "an entry that the mask excludes is multiplied by 0: whether %s (which can be zero there) occurs with a negative power is not decided" % risky[0][0])
     elif isinstance(va, bool) or isinstance(vb, bool):
         val = I.binop(op, as_expr(int(va)) if isinstance(va, bool) else va, as_expr(int(vb)) if isinstance(vb, bool) else vb, node)
     else:
@@ -685,7 +718,7 @@ def load(I, arr, idx, node, env):
                     val = arr.meta["lvl0"]
                 meta.pop("lvl0", None)
             elif arr.ndim == 1 and const_int(it) == -1 and isinstance(val, Expr) and "gen" not in arr.meta and not isinstance(arr, SymArr):
-                val = alg.fn("last", val)
+                val = _last_of(val)
             elif arr.ndim == 1 and isinstance(val, Expr) and any(a.kind == "fn" and a.name in ("gather", "cumsum", "permidx") for a in val.atoms()):
                 val = alg.fn("pick", val, it)
             elif arr.ndim == 1:
@@ -1402,7 +1435,7 @@ def builtin(I, name, args, kwargs, node, env):
             c = x.as_const()
             if c is not None and c.im == 0:
                 return alg.const(int(c.re))
-            if _scalar_dtype(x) == "int":
+            if _scalar_dtype(x) == "int" or any(x.eq(k) for k in getattr(I, "known_integers", ())):
                 return x
             pos = I_.manifest_sign(x) <= {"+", "0"}
             r = alg.fn("int", x, integer=True, pos=False) if not pos else _nonneg_int(x)
@@ -1521,6 +1554,18 @@ def builtin(I, name, args, kwargs, node, env):
             g = seqs[0].items[0]
             return Tup([GenList(I.call(f, [g.elem], {}, node, env), g.ivar, g.rng)], "list")
         return Unknown("builtin map")
+    if name == "zip" and len(args) >= 2 and all(isinstance(x, Tup) and x.kind != "dict" and len(x.items) == 1 and isinstance(x.items[0], GenList) for x in args):
+        # generated lists zipped position by position: one generated list of tuples, as long as the shortest
+        gs = [x.items[0] for x in args]
+        short = gs[0]
+        for g in gs[1:]:
+            d = I.facts.possible((g.rng.count - short.rng.count).expand())
+            if d <= {"-"}:
+                short = g
+            elif not d <= {"0", "+"}:
+                return Unknown("zip of generated lists whose lengths cannot be compared")
+        elems = [I_.subst_value(g.elem, {g.ivar: alg.atom_expr(short.ivar)}) if g.ivar is not short.ivar else g.elem for g in gs]
+        return Tup([GenList(Tup(elems), short.ivar, short.rng)], "list")
     if name == "zip":
         if all(isinstance(x, Tup) and not any(isinstance(i, GenList) for i in x.items) for x in args):
             return Tup([Tup(list(t)) for t in zip(*[x.items for x in args])], "list")
@@ -1785,7 +1830,14 @@ def np_full_like(kind):
                     dt = "inherit:%s" % (x.meta.get("param") or x.meta.get("param_derived") or x.name)
                 else:
                     dt = x.dtype
-            return Arr(x.shape, val, dt, {})
+            # *_like keeps the memory layout of its model: C order for a fresh array, the caller's layout for a caller's array
+            lay = x.meta.get("layout_of") or (x.name if isinstance(x, SymArr) or x.meta.get("param") else None)
+            m = {"layout_of": lay} if lay else {"c_order": True} if x.meta.get("c_order") else {}
+            shp = x.shape
+            if kwargs.get("shape") is not None:
+                shp2 = _shape_arg(kwargs["shape"])
+                shp = shp2 if shp2 is not None else None
+            return Arr(shp, val, dt, m)
         if isinstance(x, Expr):
             if dt is None:
                 atoms = [a for a in x.atoms() if a.kind == "sym" and a.meta == "param"]
@@ -1807,7 +1859,7 @@ def np_full(kind):
             val = {"ones": ONE, "zeros": ZERO, "empty": alg.sym("uninitialised")}[kind]
         if shp is None:
             return Arr(None, val, dt, {})
-        meta = {}
+        meta = {"c_order": True} if kwargs.get("order") in (None, "C") else {}  # a freshly allocated array is C-contiguous
         if dt == "bool":
             meta["ident"] = "mask@%s:%s" % (I.cur_mod.name, node.lineno)
             val = True if kind == "ones" else False
@@ -1996,6 +2048,66 @@ def np_classify(kind):
     return h
 
 
+ELEMENTWISE_FNS = ("elem", "cumsum", "gather", "scatter", "idx", "fftidx", "permidx", "pick", "dft", "dft0", "idft", "idft0")
+
+
+def _scalar_atom(a, depth=0):
+    """is this atom one number for the whole array (not a function of the position)?"""
+    if a.kind == "sym":
+        return not str(a.name).startswith(("?", "array@"))
+    if a.kind in ("fn", "base", "def") and depth < 8:
+        if a.kind == "fn" and a.name in ELEMENTWISE_FNS:
+            return False
+        return all(_scalar_atom(b, depth + 1) for x in a.args if isinstance(x, Expr) for b in x.atoms())
+    return False
+
+
+def _last_of(val):
+    """the last entry of an array known through its generic entry; a factor that is one number for the whole array is the same
+    factor of the last entry (and the product is the same floating point operation either way)"""
+    cm = val.as_mono()
+    if cm is None:
+        return alg.fn("last", val)
+    c0, facs = cm
+    out = alg.const(c0.re) if c0.im == 0 else alg.const(c0.re) + alg.IMAG * alg.const(c0.im)
+    inner = ONE
+    for a, p in facs:
+        if _scalar_atom(a):
+            out = out * alg.power(alg.atom_expr(a), p)
+        else:
+            inner = inner * alg.power(alg.atom_expr(a), p)
+    if inner.eq(ONE):
+        return out
+    return out * alg.fn("last", inner)
+
+
+def np_isclose(whole):
+    """np.isclose / np.allclose(a, b, rtol=1e-5, atol=1e-8): |a - b| <= atol + rtol * |b| - a threshold test, not a test against zero"""
+    def h(I, args, kwargs, node):
+        if len(args) < 2:
+            return Unknown("np.isclose")
+        a, b = args[0], args[1]
+        rtol = _kw(args, kwargs, 2, "rtol", alg.const(Q(1, 100000)))
+        atol = _kw(args, kwargs, 3, "atol", alg.const(Q(1, 100000000)))
+        va, vb = val_of(a), val_of(b)
+        if not (isinstance(va, Expr) and isinstance(vb, Expr) and isinstance(rtol, Expr) and isinstance(atol, Expr)):
+            return Unknown("np.isclose of %r and %r" % (a, b))
+        shape = ()
+        for x in (a, b):
+            if isinstance(x, Arr):
+                shape = broadcast(I, shape, x.shape, node)
+        e = _abs(va - vb) - atol - rtol * _abs(vb)
+        p = I.cmp_expr(e, "<=")
+        if shape:
+            arr = Arr(shape, p, "bool")
+            if whole:
+                q = _quantified(I, "all", arr)
+                return q if q is not None else Unknown("np.allclose")
+            return arr
+        return p
+    return h
+
+
 def _quantified(I, name, x):
     """any / all of a boolean array known through its generic element"""
     v = x.val
@@ -2050,9 +2162,23 @@ def np_where(I, args, kwargs, node):
     for x in (c, a, b):
         if isinstance(x, Arr):
             shape = broadcast(I, shape, x.shape, node)
+    pv = val_of(pick)
+    if isinstance(pv, Expr):
+        # the operands were computed before the condition was decided: what the decision says about signs applies to the
+        # entries that are picked (np.where(x > 0, f(abs(x)), 0) is f(x) where it is taken)
+        sub = {}
+        for at in pv.atoms():
+            if at.kind == "fn" and at.name == "abs" and at.args and isinstance(at.args[0], Expr):
+                p = I.facts.possible(at.args[0])
+                if p <= {"+", "0"}:
+                    sub[at] = at.args[0]
+                elif p <= {"-", "0"}:
+                    sub[at] = -at.args[0]
+        if sub:
+            pv = pv.subs(sub)
     if shape:
-        return Arr(shape, val_of(pick), (pick.dtype if isinstance(pick, Arr) else _scalar_dtype(pick)), {})
-    return val_of(pick)
+        return Arr(shape, pv, (pick.dtype if isinstance(pick, Arr) else _scalar_dtype(pick)), {})
+    return pv
 
 
 def np_select(I, args, kwargs, node):
@@ -2387,9 +2513,44 @@ def np_roll(I, args, kwargs, node):
     return Unknown("np.roll")
 
 
+# Contracts of arrays that a check hands in as opaque inputs: {atom of the array's generic element: (value of the last entry,
+# index of the last entry)} for a strictly increasing 1-D grid whose last node equals that value in exact arithmetic (the
+# vertical grid of vertical_profiles ends at the measurement height: C09 R-GRID).  Set and cleared by the check that uses it.
+GRID_CONTRACTS = {}
+
+
+def _grid_contract(x):
+    if isinstance(x, Arr) and isinstance(x.val, Expr):
+        a = _single_atom(x.val)
+        if a is not None:
+            return GRID_CONTRACTS.get(a)
+    return None
+
+
+def np_argmin(I, args, kwargs, node):
+    """argmin(|g - t|) over a strictly increasing grid g whose last node is t: the last index (the other nodes are at least one
+    grid spacing away, so this also holds for the rounded values)"""
+    x = args[0] if args else None
+    if isinstance(x, Arr) and x.ndim == 1 and isinstance(x.val, Expr) and not kwargs:
+        a = _single_atom(x.val)
+        if a is not None and a.kind == "fn" and a.name == "abs" and isinstance(a.args[0], Expr):
+            inner = a.args[0].expand()
+            for g, (top, idx) in GRID_CONTRACTS.items():
+                if (inner.coeff_of(g, 1).eq(ONE) and (inner - alg.atom_expr(g) + top).is_zero()) or (inner.coeff_of(g, 1).eq(-ONE) and (inner + alg.atom_expr(g) - top).is_zero()):
+                    I.__dict__.setdefault("known_integers", []).append(idx)  # an index is an integer whatever the symbol's flags say
+                    return idx
+    return Unknown("np.argmin")
+
+
 def np_searchsorted(I, args, kwargs, node):
     a, v = args[0], args[1]
     side = _kw(args, kwargs, 2, "side", "left")
+    gc = _grid_contract(a)
+    if gc is not None and isinstance(v, Expr) and v.eq(gc[0]):
+        # the searched value is hit exactly only in exact arithmetic: whether the computed node lies a rounding error below
+        # or above it decides between two different answers
+        I.event("fragile-search", node, "np.searchsorted for the value the grid's last node equals only up to rounding: the answer is %r or %r depending on the rounding of that node" % (gc[1], gc[1] + ONE))
+        return alg.fn("searchsorted_at_exact_hit", a.val, v, side if isinstance(side, str) else "?", integer=True)
     if isinstance(a, Arr) and a.meta.get("sorted_unique") and a.meta.get("unique_of") is not None and isinstance(v, Arr) and side == "left":
         src = a.meta["unique_of"]
         if v is src or (isinstance(v.val, Expr) and isinstance(src.val, Expr) and v.val.eq(src.val) and v.shape == src.shape):
@@ -2621,8 +2782,10 @@ EXT = {
     "numpy.concatenate": np_concatenate,
     "numpy.isin": np_isin,
     "numpy.count_nonzero": np_count_nonzero,
+    "numpy.argmin": np_argmin,
     "numpy.isnan": np_classify("isnan"), "numpy.isinf": np_classify("isinf"), "numpy.isfinite": np_classify("isfinite"),
     "numpy.any": np_anyall("any"), "numpy.all": np_anyall("all"),
+    "numpy.isclose": np_isclose(False), "numpy.allclose": np_isclose(True),
     "numpy.sqrt": unary(alg.sqrt),
     "numpy.exp": unary(alg.exp),
     "numpy.log": unary(alg.log),
